@@ -1003,6 +1003,107 @@ def sweep_shard(item, deadline):
     return acc
 
 
+
+# =====================================================================================================
+# part cmd: present value and priority array of commandable objects, written and read over the wire
+# =====================================================================================================
+
+def cmd_ops(nvalues):
+    ops = []
+    for which in (0, 1):
+        for prio in (8, None):
+            for vi in range(nvalues):
+                ops.append(("w", which, prio, vi))
+            ops.append(("r", which, prio))
+    return ops
+
+
+def cmd_case(name, hist):
+    """Two objects of one commandable class on one device.  Every step is a WriteProperty of presentValue with or without
+    priority (a value, or Null to relinquish) to one of them; after every acknowledged write ReadProperty of the present
+    value and of the written array element of BOTH objects must give what an independent per-object model says (priorities
+    1..16 of the quantifier; a write to one object changes no property of the other).  -> (problem or None, trace)"""
+    from bv.refs import cmdref
+    from bv.stacks import cmdstack as cs
+    from bacpypes.basetypes import PriorityValue
+    choice, domain = [(c, d) for (n, c, d) in cmdref.CLASSES if n == name][0]
+    dom = cmdref.DOMAINS[domain]
+    vclock.reset(0.0)
+    pair = cs.WirePair()
+    objs = [cs.make_object(name, domain, instance=i + 1) for i in range(2)]
+    for o in objs:
+        pair.add(o)
+    refs = [cmdref.CmdRef(dom["default"]) for _ in objs]
+    dt = objs[0].get_datatype("presentValue")
+    trace = []
+
+    def read_pv(k):
+        st, anyv = pair.read(objs[k].objectIdentifier, "presentValue")
+        if st != ("ack",):
+            return ("?answer",) + tuple(st)
+        try:
+            return cs.from_py(domain, anyv.cast_out(dt))
+        except Exception as err:
+            return ("?decode", type(err).__name__)
+
+    def read_slot(k, idx):
+        st, anyv = pair.read(objs[k].objectIdentifier, "priorityArray", idx)
+        if st != ("ack",):
+            return ("?answer",) + tuple(st)
+        try:
+            return cs.slot_view(domain, choice, anyv.cast_out(PriorityValue))
+        except Exception as err:
+            return ("?decode", type(err).__name__)
+
+    # two fresh objects start from the same state
+    for k in (0, 1):
+        if read_pv(k) != refs[k].pv:
+            return ("cmd:fresh-object-present-value-differs", {"object": k, "got": read_pv(k), "want": refs[k].pv}), trace
+    for step, op in enumerate(hist):
+        which, prio = op[1], op[2]
+        value = dom["values"][op[3]] if op[0] == "w" else cmdref.NULL
+        reply = pair.write(objs[which].objectIdentifier, "presentValue", cs.to_encodable(domain, value), priority=prio)
+        trace.append((op, reply))
+        if reply != ("ack",):
+            return ("cmd:valid-command-not-acknowledged:%s" % ":".join(str(x) for x in reply[:3]), {"step": step, "op": op}), trace
+        refs[which].command(value, priority=prio)
+        slot = 16 if prio is None else prio
+        for k in (0, 1):
+            got = read_pv(k)
+            if got != refs[k].pv:
+                who = "written" if k == which else "other"
+                return ("cmd:present-value-of-the-%s-object-differs-after-acknowledged-write" % who,
+                        {"step": step, "op": op, "object": k, "got": got, "want": refs[k].pv}), trace
+            got = read_slot(k, slot)
+            if got != refs[k].slots[slot]:
+                who = "written" if k == which else "other"
+                return ("cmd:array-element-of-the-%s-object-differs-after-acknowledged-write" % who,
+                        {"step": step, "op": op, "object": k, "slot": slot, "got": got, "want": refs[k].slots[slot]}), trace
+    return None, trace
+
+
+def cmd_shard(item, deadline):
+    import itertools as it
+    from bv.refs import cmdref
+    acc = Acc()
+    for (name, depth) in item:
+        domain = [d for (n, c, d) in cmdref.CLASSES if n == name][0]
+        ops = cmd_ops(len(cmdref.DOMAINS[domain]["values"]))
+        for n in range(1, depth + 1):
+            for hist in it.product(ops, repeat=n):
+                if time.time() > deadline:
+                    acc.cap("cmd: deadline")
+                    return acc
+                bad, trace = cmd_case(name, hist)
+                acc.case(("cmd", name, hist))
+                acc.traces += 1
+                acc.transitions += len(hist) * 5
+                acc.outcome("cmd:%s" % ("ok" if bad is None else bad[0]))
+                if bad is not None:
+                    acc.fail(bad[0], {"class": name, "history": [list(o) for o in hist], "mismatch": bad[1]},
+                             {"part": "cmd", "class": name, "hist": [list(o) for o in hist]})
+    return acc
+
 # =====================================================================================================
 # run / replay
 # =====================================================================================================
@@ -1033,11 +1134,26 @@ def run(tier, seed, deadline):
         shards_per_level=256)
     acc.info["hist wall s"] = round(time.time() - t1, 1)
     acc.info["hist: evaluations"] = acc.evaluations - sweep_eval
+    # -- commandable objects (two of a class), present value / priority array over the wire
+    from bv.refs import cmdref
+    if tier == "quick":
+        names = ["AnalogValueCmdObject", "BinaryOutputCmdObject", "CharacterStringValueCmdObject", "MultiStateValueCmdObject",
+                 "OctetStringValueCmdObject", "BitStringValueCmdObject"]
+        depth = 2
+    else:
+        names = [n for (n, c, d) in cmdref.CLASSES]
+        depth = 3
+    run_shards(cmd_shard, [[(n, depth)] for n in names], deadline, into=acc)
+    acc.info["cmd: classes"] = len(names)
     return acc
 
 
 def replay(case):
     acc = Acc()
+    if case.get("part") == "cmd":
+        vclock.install()
+        bad, trace = cmd_case(case["class"], [tuple(o) for o in case["hist"]])
+        return bad is None, "%s history=%r -> %r\ntrace=%r" % (case["class"], case["hist"], bad, trace)
     sig = case.get("signature")
     if case.get("part") == "sweep":
         op = case["op"]
